@@ -127,14 +127,21 @@ func extra10C03(c *Ctx) {
 		}
 		_ = x
 		v, isC := core.ConstInt(info, y)
-		if !isC || (op != token.GEQ && op != token.GTR) || v < 300 {
+		if !isC || v < 300 {
+			return true
+		}
+		// the range of statuses treated as errors, from either side: status >= c / > c, or the success test
+		// status < c / <= c whose other edge is the error
+		var lowest int64
+		switch op {
+		case token.GEQ, token.LSS:
+			lowest = v
+		case token.GTR, token.LEQ:
+			lowest = v + 1
+		default:
 			return true
 		}
 		n++
-		lowest := v
-		if op == token.GTR {
-			lowest = v + 1
-		}
 		c.Check(rule, f.Key()+" error statuses#"+itoa(n)+" start at 400", c.Pos(be), lowest <= 400, "responses with status "+itoa(int(lowest-1))+" are not treated as errors (`"+core.ExprString(be)+"`)")
 		return true
 	})
